@@ -60,6 +60,20 @@ TExtract == /\ IsEvent("Extract") /\ pass = "extract" /\ (idx > 0 \/ ended)
             /\ Chk("extract verdict", IF ended THEN ~Ev.res ELSE IF cur.len = 1 THEN TRUE ELSE (obs[idx].isdir \/ Ev.res = Verdict(idx)))
             /\ UNCHANGED <<pass, idx, obs, cur, anyBad, ended>>
 
+\* pass "mixed": the caller first reads some bytes of the member and then asks for a verdict on it.
+\* Whatever the library does then, a good verdict still needs the bytes produced *by that operation*
+\* to have the recorded length and CRC - after n > 0 bytes were taken away they cannot, so the
+\* verdict must be bad (a member of declared length 0 aside: nothing can be taken from it).
+TReadMixed == /\ IsEvent("Read") /\ pass = "mixed" /\ (idx > 0 \/ ended)
+              /\ cur' = [cur EXCEPT !.crc = @ + Ev.n]          \* (cur.crc doubles as "bytes already taken" in this pass)
+              /\ UNCHANGED <<pass, idx, obs, anyBad, ended>>
+TCheckMixed == /\ IsEvent("Check") /\ pass = "mixed" /\ (idx > 0 \/ ended)
+               /\ Chk("verdict after a partial read", Ev.res = (IF ended \/ cur.len = 1 THEN FALSE ELSE IF cur.crc = 0 THEN Want(idx) ELSE FALSE))
+               /\ UNCHANGED <<pass, idx, obs, cur, anyBad, ended>>
+TExtractMixed == /\ IsEvent("Extract") /\ pass = "mixed" /\ (idx > 0 \/ ended)
+                 /\ Chk("extract verdict after a partial read",
+                        IF ended THEN ~Ev.res ELSE IF cur.len = 1 \/ obs[idx].isdir THEN TRUE ELSE IF cur.crc = 0 THEN Ev.res = Verdict(idx) ELSE ~Ev.res)
+                 /\ UNCHANGED <<pass, idx, obs, cur, anyBad, ended>>
 \* command line: Cli{i, good} = the tool's per-member line says Tested/Melted (good) or not;
 \* Exit{code}
 TCli == /\ IsEvent("Cli") /\ pass \in {"cli-t", "cli-x"}
@@ -72,7 +86,7 @@ TExit == /\ IsEvent("Exit")
          /\ UNCHANGED <<pass, idx, obs, cur, anyBad, ended>>
 TOther == /\ l <= Len(Trc) /\ Ev.e \in {"New", "Free"} /\ l' = l + 1 /\ UNCHANGED <<pass, idx, obs, cur, anyBad, ended>>
 
-VStep == TReset \/ TNext \/ TRead \/ TCheck \/ TExtract \/ TCli \/ TExit \/ TOther
+VStep == TReset \/ TNext \/ TReadMixed \/ TCheckMixed \/ TExtractMixed \/ TRead \/ TCheck \/ TExtract \/ TCli \/ TExit \/ TOther
 TView == <<l, pass, idx, anyBad>>
 TSpec == TInit /\ [][VStep]_tvars
 Accepted == LET dd == TLCGet("stats").diameter - 1
